@@ -31,6 +31,8 @@ class _Err:
 
 UNKNOWN = _Unknown()
 ERR = _Err()
+_MISSING = object()
+CURRENT_SYM = [None]   # set by Symbols(): the table of the repository under analysis
 
 
 class Opaque:
@@ -112,6 +114,9 @@ class FD:
         self.compare_hook = None
         self.steps = 0
         self.max_steps = max_steps
+        self.sym = CURRENT_SYM[0]   # symbol table of the analysed repository (module-aware fallbacks)
+        self._mods = []             # stack of the modules of the functions being interpreted
+        self._modcache = {}
 
     # -- expressions -------------------------------------------------------------------------
     def eval(self, e, env):
@@ -144,9 +149,51 @@ class FD:
                 return self.resolver(e.id)
             except KeyError:
                 pass
+        v = self.module_name(e.id)
+        if v is not _MISSING:
+            return v
         if e.id in _BUILTIN_TYPES:
             return _BUILTIN_TYPES[e.id]
         raise Inconclusive('fdeval: unbound name %s' % e.id)
+
+    def module_name(self, name):
+        """Value of a global name as seen from the module of the function being interpreted: a module-level constant
+        (evaluated by this interpreter, cached so that mutable module state is shared like at run time) or a pedal
+        function (interpreted inline when called). Classes are left to the harness."""
+        if self.sym is None or not self._mods or self._mods[-1] is None:
+            return _MISSING
+        mod = self._mods[-1]
+        key = (mod.name, name)
+        if key in self._modcache:
+            return self._modcache[key]
+        b = self.sym.lookup(mod.name, name)
+        seen = 0
+        while b is not None and b.kind == 'importfrom' and b.target in self.sym.repo.modules and seen < 6:
+            mod = self.sym.repo.modules[b.target]
+            b = self.sym.lookup(b.target, b.attr)
+            seen += 1
+        if b is None:
+            return _MISSING
+        if b.kind == 'func' and isinstance(b.node, ast.FunctionDef):
+            fn = b.node
+
+            def call(*args, **kwargs):
+                return self.call_function(fn, list(args), kwargs)
+            call._fd_callable = True
+            call._fd_def = fn
+            self._modcache[key] = call
+            return call
+        if b.kind == 'assign' and b.node is not None:
+            self._mods.append(b.module)
+            try:
+                v = self.eval(b.node, {})
+            except Inconclusive:
+                return _MISSING
+            finally:
+                self._mods.pop()
+            self._modcache[key] = v
+            return v
+        return _MISSING
 
     def e_Attribute(self, e, env):
         from .astutil import dotted
@@ -496,7 +543,8 @@ class FD:
             return self.call_method(recv, e.func.attr, args, kwargs)
         if name in _BUILTINS:
             args = [self.eval(a, env) for a in e.args]
-            return _BUILTINS[name](*args)
+            kw = {k.arg: self.eval(k.value, env) for k in e.keywords}
+            return _BUILTINS[name](*args, **kw)
         if name is None:
             f = self.eval(e.func, env)
             if callable(f):
@@ -537,8 +585,43 @@ class FD:
         for p in params:
             if p not in env:
                 raise Inconclusive('fdeval: missing argument %s' % p)
-        r = self.run(fn.body, env)
+        if bound_self is not None and isinstance(bound_self, Obj) and '__classdef__' not in bound_self.attrs \
+                and isinstance(getattr(fn, '_parent', None), ast.ClassDef):
+            bound_self.attrs['__classdef__'] = fn._parent
+        self._mods.append(getattr(fn, '_module', None) or (self._mods[-1] if self._mods else None))
+        try:
+            r = self.run(fn.body, env)
+        finally:
+            self._mods.pop()
         return None if r is NO_RETURN else r
+
+    def class_method(self, obj, attr):
+        """A method of the class the object was bound to (or of its pedal base classes) that the harness did not
+        bind explicitly - e.g. a private helper a refactoring extracted."""
+        cd = obj.attrs.get('__classdef__')
+        if cd is None:
+            return None
+        from .astutil import dotted
+        todo, seen = [cd], set()
+        while todo:
+            c = todo.pop(0)
+            if id(c) in seen:
+                continue
+            seen.add(id(c))
+            for st in c.body:
+                if isinstance(st, ast.FunctionDef) and st.name == attr:
+                    decos = [dotted(d) for d in st.decorator_list]
+                    if 'property' in decos:
+                        return None
+                    if 'staticmethod' in decos:
+                        return lambda *a, **k: self.call_function(st, list(a), k)
+                    return lambda *a, **k: self.call_function(st, list(a), k, bound_self=obj)
+            if self.sym is not None and getattr(c, '_module', None) is not None:
+                ci = self.sym.classes.get((c._module.name, getattr(c, '_qualname', c.name)))
+                if ci is not None:
+                    for k in self.sym.mro(ci)[1:]:
+                        todo.append(k.node)
+        return None
 
     def bind_methods(self, obj, methods, skip=()):
         """Attach the given {name: FunctionDef} as abstractly-executed bound methods of obj."""
@@ -574,6 +657,9 @@ class FD:
                 return recv.attrs['method:' + attr](*args, **kwargs)
             if attr in recv.attrs and getattr(recv.attrs[attr], '_fd_callable', False):
                 return recv.attrs[attr](*args, **kwargs)   # a callable stored in an instance attribute
+            m = self.class_method(recv, attr)
+            if m is not None:
+                return m(*args, **kwargs)
             if recv.attrs.get('__closed__'):
                 raise Raised('AttributeError', '%r object has no attribute %r' % (recv._name, attr))
         if recv is UNKNOWN:
@@ -602,6 +688,12 @@ class FD:
                 raise Raised('ValueError', 'not in list')
         if isinstance(recv, (list, tuple)) and attr == 'count':
             return recv.count(args[0])
+        if isinstance(recv, list) and attr in ('sort', 'reverse'):
+            try:
+                getattr(recv, attr)(*args, **kwargs)
+            except TypeError as ex:
+                raise Raised('TypeError', str(ex))
+            return None
         if isinstance(recv, list) and attr in ('append', 'extend', 'insert', 'clear'):
             getattr(recv, attr)(*args)
             return None
@@ -953,9 +1045,30 @@ def _concrete_seq(f):
     return g
 
 
+def _b_sorted(x, key=None, reverse=False):
+    if x is UNKNOWN or isinstance(x, (Opaque, Obj)):
+        raise Inconclusive('fdeval: sorted() of a non-concrete value')
+    try:
+        return sorted(x, key=key, reverse=bool(reverse))
+    except TypeError as ex:
+        raise Raised('TypeError', str(ex))
+
+
+def _b_next(it, *default):
+    """Generators are modelled as lists: next() takes (and consumes) the first element."""
+    if not isinstance(it, list):
+        raise Inconclusive('fdeval: next() of a non-concrete iterator')
+    if it:
+        return it.pop(0)
+    if default:
+        return default[0]
+    raise Raised('StopIteration')
+
+
 _BUILTINS = {
     'reversed': _concrete_seq(lambda x: list(reversed(x))),
-    'sorted': _concrete_seq(lambda x: sorted(x)),
+    'sorted': _b_sorted,
+    'next': _b_next,
     'list': _concrete_seq(lambda *x: list(*x)),
     'tuple': _concrete_seq(lambda *x: tuple(*x)),
     'enumerate': _concrete_seq(lambda x, start=0: list(enumerate(x, start))),
